@@ -125,6 +125,14 @@ class Gen:
             fn = r.choice(FUNCS + (PG_FUNCS if self.b == "pg" else []) + ["cust:%s" % hexs("MY_FN")])
             n = r.randrange(0, 3)
             args = [self.expr(d) for _ in range(n)]
+            if fn in ("pg0", "pg1", "pg2", "pg3", "pg4") and r.random() < 0.7:
+                # the documented shapes of the Postgres full-text constructors: (expr) or (regconfig, expr)
+                args = ["(val i:u32:%d)" % r.choice([13043, 3748, 1])] * r.randrange(0, 2) + [self.expr(d)]
+            elif fn in ("pg5", "pg6", "pg7") and r.random() < 0.7:
+                args = [self.expr(d), self.expr(d)]
+            elif fn in ("pg10", "pg11") and r.random() < 0.7:
+                args = [self.expr(d)]
+            n = len(args)
             if n >= 2 and r.random() < (0.4 if fn in ("greatest", "least", "coalesce", "ifnull") else 0.1):
                 args = [args[0]] * n          # the same argument repeated (GREATEST(a, a), COALESCE(x, x))
             return "(fn %s %s)" % (fn, " ".join(args))
